@@ -2,7 +2,7 @@
     Proved part (the rest of the claim rests on the correspondence + ASan/UBSan, see DESIGN.md). *)
 From Coq Require Import ZArith List Bool.
 From RecordUpdate Require Import RecordSet.
-From Nice Require Import Base.Bytes Ptcp.PtcpModel Ptcp.PtcpProofs.
+From Nice Require Import Base.Bytes Ptcp.PtcpModel Ptcp.PtcpProofs Ptcp.ReassemblyProofs Ptcp.FifoBoundProofs.
 Import ListNotations.
 Local Open Scope Z_scope.
 
@@ -25,3 +25,21 @@ Theorem C10_window_refuted_by_fin_flush :
   exists wnd inflight wnd' inflight',
     fin_flush_scenario = Some (wnd, inflight, wnd', inflight') /\ inflight <= wnd /\ wnd' = wnd /\ inflight' > wnd'.
 Proof. exists 1024, 1024, 1024, 3001. vm_compute. repeat split; congruence. Qed.
+
+(** The receive FIFO cannot be overrun: for EVERY sequence of offset writes (any payload, any non-negative offset — the offset comes from a
+    peer-chosen sequence number), commits and reads, the readable data stays within the capacity, the cached length is exact, and no stored
+    extent ends beyond the free space; the capacity never changes.  ([None] = the commit-beyond-free-space assertion, excluded by the statement.) *)
+Theorem C10_receive_fifo_never_overrun : forall ops f f', fifo_inv f -> Forall op_ok ops -> frun f ops = Some f' ->
+  fifo_inv f' /\ rb_cap f' = rb_cap f.
+Proof. exact fifo_never_overrun. Qed.
+
+(** a single offset write stores at most what fits beyond the offset, never more than offered, and leaves the readable data alone *)
+Theorem C10_offset_write_bounded : forall f d off, fifo_inv f -> 0 <= off ->
+  let '(f', copied) := rb_write_offset f d off in
+  0 <= copied <= len d /\ off + copied <= Z.max off (rb_cap f - rb_n f) /\ rb_n f' = rb_n f /\ rb_data f' = rb_data f.
+Proof. exact write_offset_bounded. Qed.
+
+(** positions of the window that no stored extent covers read as zero, not as stale memory *)
+Theorem C10_uncovered_positions_read_zero : forall S fut total n i, 0 <= total -> Forall (consistent S) fut -> (i < n)%nat ->
+  coveredb fut (total + Z.of_nat i) = false -> nth i (fut_bytes fut total n) 0 = 0.
+Proof. exact uncovered_reads_zero. Qed.
